@@ -130,11 +130,53 @@ def _laws(x, e, d, de, ed, case):
 
 def _apply(f, x, case, name):
     buf = bytearray(x)
+    # an in-place transform works on buffers other code holds views of (a recv_into window, a reader
+    # over the packet): every other call is made while a memoryview export of the buffer is alive
+    export = memoryview(buf) if (len(x) + (x[0] if x else 0)) % 2 else None
     try:
         f(buf)
     except Exception as ex:  # the statement is total: every byte string is accepted
         raise Violation("no_exception", case, "returns", f"{type(ex).__name__}: {ex}", name)
     return bytes(buf)
+
+
+
+def _threaded(funcs_inputs_expected, res, clause_case):
+    """Calls that work on DIFFERENT buffers must not disturb each other when they run on different
+    threads (the functions are documented as operating in place on the buffer they are given; nothing is
+    shared). 4 threads x many calls with a tiny switch interval; a correct library passes whatever the
+    interleaving, so this can never raise a false alarm - it only has a chance to expose shared scratch
+    state."""
+    import sys
+    import threading
+    old = sys.getswitchinterval()
+    bad = []
+
+    def work(k):
+        for rep_ in range(60):
+            for f, x, exp in funcs_inputs_expected[k::4]:
+                buf = bytearray(x)
+                try:
+                    f(buf)
+                except Exception as e:  # noqa
+                    bad.append((x.hex(), f"raised {type(e).__name__}"))
+                    return
+                if bytes(buf) != exp:
+                    bad.append((x.hex(), bytes(buf).hex()[:80]))
+                    return
+    sys.setswitchinterval(1e-6)
+    try:
+        ts = [threading.Thread(target=work, args=(k,)) for k in range(4)]
+        for t in ts:
+            t.start()
+        for t in ts:
+            t.join()
+    finally:
+        sys.setswitchinterval(old)
+    res.extra["threaded_calls"] = res.extra.get("threaded_calls", 0) + 60 * len(funcs_inputs_expected)
+    if bad:
+        raise Violation("independent_of_concurrent_calls_on_other_buffers", clause_case(bad[0][0]),
+                        "the single-threaded result", bad[0][1])
 
 
 def check(c, x, case=None):
@@ -189,6 +231,12 @@ def run_task(task):
     res = TaskResult()
     kind = task["kind"]
     try:
+        if kind == "threads":
+            xs = [bytes((i * 29 + k) % 256 for i in range(n)) for n in (3, 16, 64, 255, 700, 4100) for k in (0, 0x22, 0x50)]
+            jobs = [(c.data.encode_string, x, refcodec.ref_encode_string(x)) for x in xs] + \
+                   [(c.data.decode_string, x, refcodec.ref_decode_string(x)) for x in xs]
+            _threaded(jobs, res, lambda h: {"hex": h, "threads": True})
+            return res
         if kind == "opt":
             from vlib import optrun
             xs = [bytes((i * 31 + k) % 256 for i in range(n)) for n in (0, 1, 2, 3, 7, 8, 33, 64) for k in (0, 0x22, 0x4F, 0x7E)]
@@ -292,7 +340,7 @@ def run_task(task):
 
 
 def plan(tier, seed):
-    tasks = [{"kind": "vectors"}, {"kind": "long"}, {"kind": "opt"}]
+    tasks = [{"kind": "vectors"}, {"kind": "long"}, {"kind": "opt"}, {"kind": "threads"}]
     maxlen = MAXLEN[tier]
     for L in range(1, 9):
         tasks.append({"kind": "sweep", "len": L})
